@@ -161,10 +161,11 @@ class Source:
         container: None = depth-0 of file or any module (not inside impl/fn);
         else a string matched against impl headers (see _impl_matches)."""
         hits = []
-        for (a, z) in self._range_for_container(container):
+        nested = container == "@nested"      # a fn item declared inside another function's body: any depth, the name must be unique in the file
+        for (a, z) in ([(0, len(self.text))] if nested else self._range_for_container(container)):
             for mt in re.finditer(r"(?<![A-Za-z0-9_])fn\s+" + re.escape(name) + r"\b", self.m[a:z]):
                 i = a + mt.start()
-                if self._depth_rel(a, i) != 0:
+                if not nested and self._depth_rel(a, i) != 0:
                     continue
                 if container is None and self._inside_impl(i):
                     continue
